@@ -169,8 +169,171 @@ type quantizer struct {
 	p        *Prog
 	nloops   int
 	elemVar  map[ssa.Value]string // loaded range element -> bound variable
+	fnBind   map[ssa.Value]*fnBinding // function-valued parameter / free variable -> the closure bound to it by inlining
 	depth    int
+	cloDepth int
 	notes    []string
+}
+
+// fnBinding is a function value known by inlining: the function and, for a closure, the descriptions of
+// its free variables taken where the closure was made.
+type fnBinding struct {
+	fn     *ssa.Function
+	free   []string
+	freeFn []*fnBinding
+}
+
+// closureOf: the function value v denotes, when that is known here.
+func (qz *quantizer) closureOf(v ssa.Value, d int) *fnBinding {
+	if d > 4 {
+		return nil
+	}
+	if cb, ok := qz.fnBind[v]; ok {
+		return cb
+	}
+	switch t := v.(type) {
+	case *ssa.Function:
+		if len(t.Blocks) > 0 {
+			return &fnBinding{fn: t}
+		}
+	case *ssa.MakeClosure:
+		fn, _ := t.Fn.(*ssa.Function)
+		if fn == nil || len(fn.Blocks) == 0 {
+			return nil
+		}
+		cb := &fnBinding{fn: fn}
+		for _, b := range t.Bindings {
+			cb.free = append(cb.free, qz.provCell(b))
+			cb.freeFn = append(cb.freeFn, qz.closureOf(b, d+1))
+		}
+		return cb
+	case *ssa.UnOp:
+		if al, ok := t.X.(*ssa.Alloc); ok && t.Op == token.MUL {
+			var stored ssa.Value
+			n := 0
+			for _, r := range *al.Referrers() {
+				if st, ok := r.(*ssa.Store); ok && st.Addr == ssa.Value(al) {
+					stored = st.Val
+					n++
+				}
+			}
+			if n == 1 {
+				return qz.closureOf(stored, d+1)
+			}
+		}
+	case *ssa.ChangeType:
+		return qz.closureOf(t.X, d+1)
+	}
+	return nil
+}
+
+// bindFuncArgs records, for the function-typed parameters of fn, the closures passed at a call that is
+// being inlined; the returned func undoes it.
+func (qz *quantizer) bindFuncArgs(fn *ssa.Function, args []ssa.Value) func() {
+	type sv struct {
+		prm ssa.Value
+		old *fnBinding
+		had bool
+	}
+	var saved []sv
+	var binds []*fnBinding
+	for i := range fn.Params {
+		var cb *fnBinding
+		if i < len(args) {
+			if _, isSig := fn.Params[i].Type().Underlying().(*types.Signature); isSig {
+				cb = qz.closureOf(args[i], 0)
+			}
+		}
+		binds = append(binds, cb)
+	}
+	for i, prm := range fn.Params {
+		if binds[i] == nil {
+			continue
+		}
+		if qz.fnBind == nil {
+			qz.fnBind = map[ssa.Value]*fnBinding{}
+		}
+		old, had := qz.fnBind[prm]
+		saved = append(saved, sv{prm, old, had})
+		qz.fnBind[prm] = binds[i]
+	}
+	return func() {
+		for _, x := range saved {
+			delete(qz.fnBind, x.prm)
+			if x.had {
+				qz.fnBind[x.prm] = x.old
+			}
+		}
+	}
+}
+
+// callClosure: the formula of result #0 of a call of a known closure with the given arguments.
+func (qz *quantizer) callClosure(cb *fnBinding, args []ssa.Value) *qf {
+	fn := cb.fn
+	descs := make([]string, len(fn.Params))
+	for i := range fn.Params {
+		if i < len(args) {
+			descs[i] = qz.prov(args[i], 0)
+		}
+	}
+	undo := qz.bindFuncArgs(fn, args)
+	savedE := map[ssa.Value]string{}
+	hadE := map[ssa.Value]bool{}
+	savedF := map[ssa.Value]*fnBinding{}
+	hadF := map[ssa.Value]bool{}
+	set := func(v ssa.Value, d string) {
+		if old, ok := qz.elemVar[v]; ok {
+			savedE[v], hadE[v] = old, true
+		}
+		qz.elemVar[v] = d
+	}
+	for i, prm := range fn.Params {
+		if i < len(args) {
+			set(prm, descs[i])
+		}
+	}
+	for i, fv := range fn.FreeVars {
+		if i < len(cb.free) {
+			set(fv, cb.free[i])
+			if cb.freeFn[i] != nil {
+				if qz.fnBind == nil {
+					qz.fnBind = map[ssa.Value]*fnBinding{}
+				}
+				if old, ok := qz.fnBind[fv]; ok {
+					savedF[fv], hadF[fv] = old, true
+				}
+				qz.fnBind[fv] = cb.freeFn[i]
+			}
+		}
+	}
+	cx := &quantCtx{fn: fn, result: 0, phis: map[*ssa.Phi]*qf{}, headers: map[*ssa.BasicBlock]bool{}}
+	// the closure body stands where the helper's own loop body would stand: it does not count against
+	// the inlining depth (closure nesting is bounded separately)
+	qz.cloDepth++
+	f := qz.block(cx, fn.Blocks[0], nil)
+	qz.cloDepth--
+	for i, prm := range fn.Params {
+		if i < len(args) {
+			delete(qz.elemVar, prm)
+			if hadE[prm] {
+				qz.elemVar[prm] = savedE[prm]
+			}
+		}
+	}
+	for i, fv := range fn.FreeVars {
+		if i < len(cb.free) {
+			delete(qz.elemVar, fv)
+			if hadE[fv] {
+				qz.elemVar[fv] = savedE[fv]
+			}
+			delete(qz.fnBind, fv)
+			if hadF[fv] {
+				qz.fnBind[fv] = savedF[fv]
+			}
+		}
+	}
+	undo()
+	return f
 }
 
 // prov: canonical, position-free description of where a value comes from.
@@ -475,6 +638,15 @@ func (qz *quantizer) boolOf(v ssa.Value, phis map[*ssa.Phi]*qf) *qf {
 			return qIte(x, qNot(y), y)
 		}
 	case *ssa.Call:
+		if t.Call.StaticCallee() == nil && !t.Call.IsInvoke() && isBoolType(t.Type()) && qz.cloDepth < 6 {
+			// a call of a function value that inlining has bound to a known closure (a predicate handed
+			// to a generic helper)
+			if cb := qz.closureOf(t.Call.Value, 0); cb != nil {
+				if sub := qz.callClosure(cb, t.Call.Args); sub != nil {
+					return sub
+				}
+			}
+		}
 		if callee := t.Call.StaticCallee(); callee != nil && !qz.p.InModule(callee) {
 			base := callee.Name()
 			if o := callee.Origin(); o != nil {
@@ -563,8 +735,10 @@ func (qz *quantizer) funcFormulaWith(fn *ssa.Function, k int, args []ssa.Value) 
 			}
 		}
 	}
+	undoFn := qz.bindFuncArgs(fn, args)
 	cx := &quantCtx{fn: fn, result: k, phis: map[*ssa.Phi]*qf{}, headers: map[*ssa.BasicBlock]bool{}}
 	f := qz.block(cx, fn.Blocks[0], nil)
+	undoFn()
 	if args != nil {
 		for _, prm := range fn.Params {
 			delete(qz.elemVar, prm)
@@ -596,8 +770,10 @@ func (qz *quantizer) funcFormulaEq(fn *ssa.Function, k int, args []ssa.Value, c 
 			qz.elemVar[prm] = descs[i]
 		}
 	}
+	undoFn := qz.bindFuncArgs(fn, args)
 	cx := &quantCtx{fn: fn, result: k, phis: map[*ssa.Phi]*qf{}, headers: map[*ssa.BasicBlock]bool{}, eqConst: c}
 	f := qz.block(cx, fn.Blocks[0], nil)
+	undoFn()
 	for _, prm := range fn.Params {
 		delete(qz.elemVar, prm)
 		if old, ok := saved[prm]; ok {
